@@ -133,15 +133,16 @@ func c10Classify(s *prog.Step, class string) (string, string) {
 }
 
 func init() {
-	fam := func(name string, versioned bool, off int64, q, t int) checkFn {
+	fam := func(name string, versioned, sidecar bool, off int64, q, t int) checkFn {
 		return func(a lib.Args, res *lib.Result) error {
-			return runPrograms(a, res, progOpts{name: name, prop: "C10", programs: tierN(a, q, t), next: c10Next(versioned), versioning: versioned,
+			return runPrograms(a, res, progOpts{name: name, prop: "C10", programs: tierN(a, q, t), next: c10Next(versioned), versioning: versioned, sidecar: sidecar,
 				nGateways: 1, classify: c10Classify, seedOff: off})
 		}
 	}
 	checks["c10"] = checkDef{"C10",
-		"adaptive programs on an object-lock bucket (versioned, and unversioned = gateway without a versioning directory), owner root/userplus/admin, a policy that grants two users everything with or without s3:BypassGovernanceRetention: put (with legal-hold / retention headers), PutObjectRetention (GOVERNANCE/COMPLIANCE, future and past dates, by version), PutObjectLegalHold on/off, delete (± bypass header, by version), batch delete, copy onto, PutObjectLockConfiguration (enabled / not enabled, default retention), PutBucketVersioning, DeleteBucket, by root, admin, owner and other users; finally ListObjectVersions, GET and GetObjectRetention of every version ever issued. Compared with Model.Gw.step. Non-trivial = program reaches the bucket; distinct by op list.",
-		[]checkFn{fam("lock-versioned", true, 1001, 200, 4000), fam("lock-unversioned", false, 1002, 120, 3000), c10CompleteOntoLocked}}
+		"adaptive programs on an object-lock bucket (versioned, and unversioned = gateway without a versioning directory; each with the xattr and with the sidecar metadata store), owner root/userplus/admin, a policy that grants two users everything with or without s3:BypassGovernanceRetention: put (with legal-hold / retention headers), PutObjectRetention (GOVERNANCE/COMPLIANCE, future and past dates, by version), PutObjectLegalHold on/off, delete (± bypass header, by version), batch delete, copy onto, PutObjectLockConfiguration (enabled / not enabled, default retention), PutBucketVersioning, DeleteBucket, by root, admin, owner and other users; finally ListObjectVersions, GET and GetObjectRetention of every version ever issued. Compared with Model.Gw.step. Non-trivial = program reaches the bucket; distinct by op list.",
+		[]checkFn{fam("lock-versioned", true, false, 1001, 200, 4000), fam("lock-unversioned", false, false, 1002, 120, 3000),
+			fam("lock-versioned-sidecar", true, true, 1004, 120, 2000), fam("lock-unversioned-sidecar", false, true, 1005, 60, 1000), c10CompleteOntoLocked}}
 }
 
 // c10CompleteOntoLocked: the one destructive route that performs no object-lock check on this
